@@ -39,6 +39,18 @@ def _tensorize(kw, which):
 
 
 def trainer_args(name, hyper):
+    kw = _trainer_args(name, hyper)
+    # optional, behaviour-neutral settings (where the trainer documents them): in-place record writes of its reducers and the
+    # time tolerance for treating a delay as on the step grid (delays drawn on the grid, or far from it, are unaffected)
+    import inspect
+    accepted = inspect.signature(getattr(learn, name).__init__).parameters
+    for k in ("inplace", "interp_tolerance"):
+        if k in hyper and k in accepted:
+            kw[k] = hyper[k]
+    return kw
+
+
+def _trainer_args(name, hyper):
     """-> (positional hyper-parameters as a dict of the documented keyword names, forward-less)"""
     h = {**DEFAULT_HYPER, **hyper}
     a, b, ta, tb = h["lr_a"], h["lr_b"], h["tc_a"], h["tc_b"]
